@@ -41,6 +41,15 @@ def make_peers(tb, rnd, tier):
     add(['diffie-hellman-group14-sha256', 'diffie-hellman-group-exchange-sha256', 'diffie-hellman-group-exchange-sha1'], ['ssh-ed25519'],
         ['aes128-ctr'], ['hmac-sha2-256'], dict(ed), {'diffie-hellman-group-exchange-sha256': 2048, 'diffie-hellman-group-exchange-sha1': 2048},
         banner='Generic_1.0')
+    # a server that enforces the requested group-exchange range strictly (refuses the opening 512..1536 request)
+    add(['curve25519-sha256', 'diffie-hellman-group-exchange-sha256'], ['rsa-sha2-512', 'ssh-ed25519'], ['aes128-ctr'], ['hmac-sha2-256'],
+        dict(ed, **rsa(['rsa-sha2-512', 'rsa-sha2-256', 'ssh-rsa'], 3072)), {'diffie-hellman-group-exchange-sha256': 3072})
+    P[-1]['gex_style'] = 'strict'
+    # servers that send SSH_MSG_DEBUG messages in front of their key-exchange replies
+    add(['curve25519-sha256', 'diffie-hellman-group-exchange-sha256'], ['rsa-sha2-512', 'ssh-ed25519-cert-v01@openssh.com', 'ssh-ed25519'], ['aes128-ctr'], ['hmac-sha2-256'],
+        dict(ed, **dict(rsa(['rsa-sha2-512', 'rsa-sha2-256', 'ssh-rsa'], 3072), **{'ssh-ed25519-cert-v01@openssh.com': {'size': 256, 'catype': 'ssh-rsa', 'casize': 4096}})),
+        {'diffie-hellman-group-exchange-sha256': 4096})
+    P[-1]['debug_kinds'] = {'kexreply': 2, 'gexgroup': 2, 'gexreply': 3}
     # an empty name-list is legal on the wire (an AEAD-only server needs no MAC): the tool reads it as the single empty name
     add(['curve25519-sha256'], ['ssh-ed25519'], ['aes256-gcm@openssh.com', 'chacha20-poly1305@openssh.com'], [''], dict(ed))
     add(['curve25519-sha256', 'sntrup761x25519-sha512@openssh.com'], ['ssh-ed25519'], [''], ['hmac-sha2-256'], dict(ed))
@@ -136,7 +145,9 @@ def server_of(q):
     hk = {t: rating.hostkey_blob(t, (v['size'], v['catype'], v['casize'])) for t, v in q['hks'].items() if t in q['key'] or True}
     cfg = peers.ServerCfg(banner=('SSH-2.0-' + q['banner']).encode(), kexinit={k: ([] if q[k] == [''] else q[k]) for k in ('kex', 'key', 'enc', 'mac', 'comp')}, hostkeys=hk)
     if q['dhs']:
-        cfg['gex'] = {'per_alg': {a: {'style': 'roundup', 'moduli': [b]} for a, b in q['dhs'].items()}}
+        cfg['gex'] = {'per_alg': {a: {'style': q.get('gex_style', 'roundup'), 'moduli': [b]} for a, b in q['dhs'].items()}}
+    if q.get('debug_kinds'):
+        cfg['debug_kinds'] = dict(q['debug_kinds'])        # SSH_MSG_DEBUG messages in front of probe replies (legal; must not cost a measurement)
     return cfg
 
 
